@@ -1,16 +1,19 @@
 /-
   Driver ops of C20 (trace acceptance, tie A).
 
-  `["C20.trace", {"fixed": b, "coreWatched": b, "E": n, "W": n, "D": n, "C": n, "H": n}, [[tick, name, args…], …]]`
+  `["C20.trace", {"fixed": b, "coreWatched": b, "orchShielded": b, "spawnSwept": b, "stopSwept": b, "deplEscalates": b, "E": n, "W": n, "D": n, "C": n, "H": n}, [[tick, name, args…], …]]`
      tick  = virtual time of the segment in 1/64 s; the driver inserts `delay (tick - now)` before it
      label = ["setStopFlag"] | ["scStartupBegin"] | ["scStartupEnd", o] | ["setStarted"] | ["ready"]
-           | ["scWake"] | ["scWaitRootsEnd"] | ["scStopCore"] | ["scCoreStopped"] | ["scCleanupEnd", o]
+           | ["scWake"] | ["scWaitRootsEnd"] | ["scCut"] | ["scStopCore"] | ["scCoreStopped"] | ["scCleanupEnd", o]
            | ["vaultClosed"] | ["enter", root] | ["coreEnter"] | ["coreEnd", how]
            | ["rootStopping", root, fail] | ["rootEnd", root, how]
            | ["subSpawn", i, kind] | ["subStopping", i, fail] | ["subGone", i] | ["subCancel", i] | ["withdraw", i, ok] | ["subEnd", i, how]
            | ["workerStart", w, owner] | ["workerEnd", w, how] | ["daemonSpawn", d] | ["daemonExit", d]
            | ["waiterEnd"] | ["orphan"] | ["orphanEnd"] | ["act", actor] | ["rtStopRoots"] | ["rtCancel"] | ["rtHungWait"]
-           | ["rtStopHung"] | ["rtCStopHung"] | ["rtExit", res] | ["end"] (only advances the clock)
+           | ["rtStopHung"] | ["rtCStopHung"] | ["rtExit", res] | ["hungFail"]
+           | ["orchAbandon"] | ["spawnCancel"] | ["stopCancel"] (HISTORICAL variants only — a tree before ab6fb15 / d6da86b / 883284c: the
+             run leaves the model, the comparison is truncated there; not enabled in the model of the current tree)
+           | ["end"] (only advances the clock)
      o = "ok"|"failed"|"cancelled"; how = "done"|"failed"|"cancelled"; owner/actor = ["root", name] | ["sub", i] | ["worker", w]
   → ["ok", {"accepted": true, "n": N, "final": {...}}]
   | ["ok", {"accepted": false, "index": i, "reason": r, "label": l, "state": {...}}]
@@ -81,6 +84,7 @@ def obsOf? (xs : List Json) : Option Obs :=
   | [.str "ready"] => some (.lab .ready)
   | [.str "scWake"] => some (.lab .scWake)
   | [.str "scWaitRootsEnd"] => some (.lab .scWaitRootsEnd)
+  | [.str "scCut"] => some (.lab .scCut)
   | [.str "scStopCore"] => some (.lab .scStopCore)
   | [.str "scCoreStopped"] => some (.lab .scCoreStopped)
   | [.str "scCleanupEnd", .str o] => (pendOf? o).map (fun p => .lab (.scCleanupEnd p))
@@ -108,6 +112,8 @@ def obsOf? (xs : List Json) : Option Obs :=
   | [.str "orphanEnd"] => some (.lab .orphanEnd)
   | [.str "act", a] => (actorOf? a).map (fun a => .lab (.act a))
   | [.str "orchAbandon"] => some (.lab .orchAbandon)
+  | [.str "spawnCancel"] => some (.lab .spawnCancel)
+  | [.str "stopCancel"] => some (.lab .stopCancel)
   | [.str "hungFail"] => some (.lab .hungFail)
   | [.str "rtStopRoots"] => some (.lab .rtStopRoots)
   | [.str "rtCancel"] => some (.lab .rtCancel)
@@ -154,7 +160,7 @@ def stateJson (cfg : Cfg) (s : State) : Json :=
     ("subs", .arr ((List.range s.nSubs).map (fun i => Json.str (tsName (s.st (.sub i))))).toArray),
     ("liveWorkers", .arr (((List.range s.nWorkers).filter (workerLive s)).map (fun (w : Nat) => Json.num w)).toArray),
     ("runningDaemons", .arr (((List.range s.nDaemons).filter (fun d => s.dm d == .running)).map (fun (d : Nat) => Json.num d)).toArray),
-    ("waiter", .bool s.waiter), ("orphans", .num s.orphans), ("killed", .bool s.killed)]
+    ("waiter", .bool s.waiter), ("orphans", .num s.orphans), ("killed", .bool s.killed), ("killerCut", .bool s.killerCut)]
 
 def reject (cfg : Cfg) (i : Nat) (reason : String) (lab : Json) (s : State) : Json :=
   ok (Json.mkObj [("accepted", .bool false), ("index", .num i), ("reason", .str reason),
@@ -182,10 +188,10 @@ def applyObs (cfg : Cfg) (s : State) : Obs → Except String State
       | none => .error "label-not-enabled"
 
 def replay (cfg : Cfg) (s : State) (i : Nat) : List Json → Option Json
-  | [] => some (ok (Json.mkObj [("accepted", .bool true), ("n", .num i), ("truncated", .bool false), ("final", stateJson cfg s)]))
+  | [] => some (ok (Json.mkObj [("accepted", .bool true), ("n", .num i), ("truncated", .bool s.abandoned), ("final", stateJson cfg s)]))
   | entry :: rest => do
-    -- the orchestrator was double-cancelled (`orchAbandon`, finding C20-F8): the model does not describe the code any further;
-    -- the comparison stops here and says so
+    -- (historical variants) the run has left the model (`orchAbandon` C20-F8, `spawnCancel` C20-F10, `stopCancel` C20-F11): the
+    -- model does not describe the code any further; the comparison stops here and says so
     if s.abandoned then
       some (ok (Json.mkObj [("accepted", .bool true), ("n", .num i), ("truncated", .bool true), ("final", stateJson cfg s)]))
     else
@@ -212,12 +218,15 @@ def cfgOf? (j : Json) : Option Cfg := do
   let fixed ← jBool? (← jField? j "fixed")
   let cw ← jBool? (← jField? j "coreWatched")
   let sh ← jBool? (← jField? j "orchShielded")
+  let sp ← jBool? (← jField? j "spawnSwept")
+  let ss ← jBool? (← jField? j "stopSwept")
+  let de ← jBool? (← jField? j "deplEscalates")
   let e ← jNat? (← jField? j "E")
   let w ← jNat? (← jField? j "W")
   let d ← jNat? (← jField? j "D")
   let c ← jNat? (← jField? j "C")
   let h ← jNat? (← jField? j "H")
-  pure { fixed := fixed, coreWatched := cw, orchShielded := sh, E := e, W := w, D := d, C := c, H := h }
+  pure { fixed := fixed, coreWatched := cw, orchShielded := sh, spawnSwept := sp, stopSwept := ss, deplEscalates := de, E := e, W := w, D := d, C := c, H := h }
 
 def handle : DrvHandler := fun op args =>
   match op, args with
